@@ -241,7 +241,7 @@ func GenRuleSet(t *rapid.T, o RuleOpts) *Generated {
 
 func startsWithDigit(s string) bool { return s != "" && s[0] >= '0' && s[0] <= '9' }
 
-var noise = []string{"a", "b", "c", "ab", "é", "日", ".", "+", "(", ")", " ", "\n", "\r\n", "0", "1", "-", `"`, "x", "\xff", "A", "K", "k", "ß", "\t", "*/", "}", "\\"}
+var noise = []string{"a", "b", "c", "ab", "é", "日", ".", "+", "(", ")", " ", "\n", "\r\n", "0", "1", "-", `"`, "x", "\xff", "A", "K", "k", "\u212a", "\u017f", "ß", "\t", "*/", "}", "\\"}
 
 type flatRule struct {
 	spec RuleSpec
